@@ -52,18 +52,18 @@ MODEL = {
     (Q, 'EllipseQuadrant::new'): 'ellipse_quadrant_new_ok', (Q, 'ContainsPoint for EllipseQuadrant::contains'): 'ellipse_quadrant_contains_ok',
     (CR, 'CornerRadii::confine'): 'confine_ok',
     (LM, 'Line::with_delta'): 'point_add_ok', (LM, 'Line::perpendicular'): 'perpendicular_ok', (LM, 'Line::midpoint'): 'midpoint_ok',
-    (LM, 'Line::delta'): 'line_delta_ok', (LM, 'Transform for Line::translate'): 'point_add_ok',
+    (LM, 'Line::delta'): 'line_delta_ok', (LM, 'Line::extents'): 'OverflowWalk.extents_ok', (LM, 'Transform for Line::translate'): 'point_add_ok',
     (LM, 'Transform for Line::translate_mut'): 'point_add_ok',
     (LP, 'Iterator for Points::next'): 'line_points_ok',
     (B, 'BresenhamParameters::new'): 'bparams_new_ok', (B, 'BresenhamParameters::increase_error'): 'increase_error_ok',
     (B, 'BresenhamParameters::decrease_error'): 'decrease_error_ok', (B, 'BresenhamParameters::mirror_extra_points'): 'next_all_ok',
     (B, 'Bresenham::next'): 'bnext_ok', (B, 'Bresenham::next_all'): 'next_all_ok', (B, 'Bresenham::previous_all'): 'previous_all_ok',
     (B, 'major_length'): 'major_length_ok',
-    (T, 'ParallelsIterator::new'): 'parallels_new_ok', (T, 'Iterator for ParallelsIterator::next'): 'parallels_next_ok',
-    (T, 'Iterator for ThickPoints::next'): 'thick_points_next_ok',
+    (T, 'ParallelsIterator::new'): 'parallels_new_ok, OverflowWalk.parallels_new_so_ok', (T, 'Iterator for ParallelsIterator::next'): 'parallels_next_ok, OverflowWalk.parallels_step_ok',
+    (T, 'Iterator for ThickPoints::next'): 'thick_points_next_ok, OverflowWalk.thick_points_ok',
     (IP, 'IntersectionParams::nearly_colinear_has_error'): 'nearly_colinear_ok', (IP, 'IntersectionParams::intersection'): 'ip_intersection_ok',
     (LE, 'const NORMAL_VECTOR_SCALE'): 'constant item, evaluated by rustc', (LE, 'LinearEquation::distance'): 'le_point_distance_ok',
-    (LJ, 'LineJoin::from_points'): 'miter_ok',
+    (LJ, 'LineJoin::from_points'): 'miter_ok, join_edges_ok, OverflowWalk.join_from_points_ok',
     (TR, 'ContainsPoint for Triangle::contains'): 'triangle_contains_ok', (TR, 'Triangle::area_doubled'): 'area_doubled_ok',
     (TR, 'Transform for Triangle::translate_mut'): 'point_add_ok',
     (TM, 'LineHeight::to_absolute'): 'line_height_ok',
@@ -77,6 +77,17 @@ MODEL = {
     (MT, 'TextRenderer for MonoTextStyle::draw_string'): 'draw_string_plain_ok (and line_elements_ok)',
     (MT, 'TextRenderer for MonoTextStyle::draw_whitespace'): 'draw_whitespace_ok',
     (MT, 'TextRenderer for MonoTextStyle::measure_string'): 'measure_string_ok',
+    (P, 'Index for Point::index'): 'point_index_ok', (S, 'Index for Size::index'): 'point_index_ok',
+    (P, 'From for Point::from#2'): 'from_array2_ok', (P, 'From for Point::from#3'): 'from_array2_ok',
+    (P, 'From for Point::from#4'): 'from_array2_ok', (P, 'From for Point::from#5'): 'from_array2_ok',
+    (S, 'From for Size::from#2'): 'from_array2_ok', (S, 'From for Size::from#3'): 'from_array2_ok',
+    (S, 'From for Size::from#4'): 'from_array2_ok', (S, 'From for Size::from#5'): 'from_array2_ok',
+    (P, 'TryFrom for ( u32 , u32 )::try_from'): 'try_from_ok', (P, 'TryFrom for Point::try_from'): 'try_from_ok',
+    (P, 'TryFrom for [ u32 ; 2 ]::try_from'): 'try_from_ok', (P, 'TryFrom for Point::try_from#2'): 'try_from_ok (and from_array2_ok)',
+    (P, 'TryFrom for Point::try_from#3'): 'try_from_ok (and from_array2_ok)',
+    (TR, 'Triangle::from_slice'): 'tri_from_slice_ok', (TR, 'Triangle::sorted_clockwise'): 'sorted_clockwise_ok',
+    (TR, 'Triangle::is_collapsed'): 'is_collapsed_step_ok', (IR, 'ImageRaw::new_const'): 'image_new_const_ok',
+    (LE, 'OriginLinearEquation::with_angle'): 'with_angle_ok',
     (CO, 'Cropped::new'): 'cropped_new_ok', (CO, 'Iterator for Cropped::next'): 'cropped_next_ok',
 }
 
